@@ -451,38 +451,56 @@ static void check_value(Run &r, VJob &J, const Val &v, int tix, const Vec &vec)
 	if (ok == 1) ++J.c.exact; else ++J.c.rounded;
 	if (J.entry < 2 && retA != (t == 'e' ? (int) sizeof(ld) : T.size)) ++J.c.retsize;
 }
-// thorough sweeps: all 2^32 patterns of a 4-byte source; anything unusual is handed to check_value
-static const char *sweep_targets(char s) { return s == 'f' ? "fdecbynq" : "cbynq"; }
-static bool fast_ok(VJob &J, int tix, uint32_t bits)
+// thorough sweeps: all 2^32 patterns of a 4-byte source through the converter itself.  The fast loop only
+// recognises the unsuspicious outcomes (both modes agree, refused + destination untouched, or accepted +
+// identical number); the first case that is anything else (or faults) is returned and handed to check_value.
+static const char *sweep_targets(char s) { return s == 'f' ? "fde" : "cbynq"; }
+static uint64_t sweep_run(VJob &J, int tix, uint64_t lo, uint64_t start, uint64_t n, bool &faulted)
 {
 	char t = DST[tix]; const TI &T = ti(t);
-	memcpy(J.src, &bits, 4);
 	void *dst = J.dst[tix];
-	memset(dst, PAT, T.size);
-	int sig; int a = INT_MIN, b = INT_MIN;
-	GUARD(sig, (a = do_call(J, t, dst), b = do_call(J, t, 0)));
-	if (sig || (a < 0) != (b < 0) || a == -9999) return false;
-	if (a < 0) {
-		const unsigned char *p = (const unsigned char *) dst;
-		for (int i = 0; i < T.size; ++i) if (p[i] != PAT) return false;
-		bool rep;
-		if (J.s == 'f') { float f; memcpy(&f, &bits, 4); vclass(f, T, rep); }
-		else { i128 lo, hi; int_range(T, lo, hi); i128 v = J.s == 'i' ? (i128) (int32_t) bits : (i128) bits; rep = v >= lo && v <= hi; }
-		if (rep) ++J.c.refused_rep; else { ++J.c.refused_unrep; ++J.c.nontrivial; }
-		return true;
+	const bool fsrc = J.s == 'f', sgn = J.s == 'i';
+	int64_t tlo = 0, thi = 0;
+	if (T.kind != KF) { i128 x, y; int_range(T, x, y); tlo = (int64_t) x; thi = y > (i128) INT64_MAX ? INT64_MAX : (int64_t) y; }
+	uint64_t exact = 0, rrep = 0, runrep = 0;
+	volatile uint64_t cur = start;
+	faulted = false;
+	if (sigsetjmp(g_jb, 0)) { g_armed = 0; faulted = true; return cur; }
+	g_armed = 1;
+	uint64_t i;
+	for (i = start; i < n; ++i) {
+		cur = i;
+		uint32_t bits = (uint32_t) (lo + i);
+		memcpy(J.src, &bits, 4);
+		memset(dst, PAT, T.size);
+		int a = do_call(J, t, dst), b = do_call(J, t, 0);
+		if ((a < 0) != (b < 0) || a == -9999) break;
+		if (a < 0) {
+			const unsigned char *p = (const unsigned char *) dst;
+			bool same = true;
+			for (int k = 0; k < T.size; ++k) if (p[k] != PAT) same = false;
+			if (!same) break;
+			if (fsrc) { if (T.kind == KF) ++rrep; else break; }
+			else if (T.kind == KF) break;
+			else { int64_t v = sgn ? (int64_t) (int32_t) bits : (int64_t) bits; if (v >= tlo && v <= thi) ++rrep; else ++runrep; }
+			continue;
+		}
+		if (fsrc) {
+			if (T.kind != KF) break;
+			float f; memcpy(&f, &bits, 4);
+			ld g = readnum(t, dst);
+			if (!(g == (ld) f || (g != g && f != f))) break;
+		} else {
+			if (T.kind == KF) break;
+			int64_t v = sgn ? (int64_t) (int32_t) bits : (int64_t) bits;
+			if ((int64_t) readint(t, dst) != v || v < tlo || v > thi) break;
+		}
+		++exact;
 	}
-	if (J.s == 'f') {
-		if (T.kind != KF) return false;
-		float f; memcpy(&f, &bits, 4);
-		ld g = readnum(t, dst);
-		if (!(g == (ld) f || (g != g && f != f))) return false;
-	} else {
-		if (T.kind == KF) return false;
-		i128 v = J.s == 'i' ? (i128) (int32_t) bits : (i128) bits;
-		if (readint(t, dst) != v) return false;
-	}
-	++J.c.exact;
-	return true;
+	g_armed = 0;
+	J.c.exact += exact; J.c.refused_rep += rrep; J.c.refused_unrep += runrep; J.c.nontrivial += runrep;
+	J.c.cases += i - start; J.c.query_agree += i - start;
+	return i;
 }
 
 // ------------------------------------------------------------------ text part
@@ -697,11 +715,11 @@ static void check_text(Run &r, TJob &J, const std::string &str, const Vec &vec)
 
 // ------------------------------------------------------------------ jobs
 static const int VBLOCK = 4096, TBLOCK = 2048, SWBLOCK = 1 << 16, SLICES = 16;
-static int short_len(Tier t) { return t == Quick ? 5 : 7; }
+static int short_len(Tier t) { return t == Quick ? 5 : 6; }
 void mc_jobs(Tier t, std::vector<std::string> &jobs)
 {
 	// big jobs first
-	if (t == Thorough) for (const char *e : {"value", "direct"}) for (char s : {'f', 'i', 'u'}) for (int k = 0; k < SLICES; ++k) jobs.push_back(fmt("sweep:%s:%c:%d", e, s, k));
+	if (t == Thorough) for (const char *e : {"direct"}) for (char s : {'i', 'u', 'f'}) for (int k = 0; k < SLICES; ++k) jobs.push_back(fmt("sweep:%s:%c:%d", e, s, k));
 	for (const char *s = "edfxtiunqcby"; *s; ++s) for (int e = 0; e < 4; ++e) jobs.push_back(fmt("val:%s:%c", ENTRY[e], *s));
 	std::vector<int> bases = {0, 10, 16, 8};
 	if (t == Thorough) { bases.push_back(2); bases.push_back(36); }
@@ -710,6 +728,8 @@ void mc_jobs(Tier t, std::vector<std::string> &jobs)
 		else for (int b : bases) jobs.push_back(fmt("txt:%s:%d", TENT[i].name, b));
 	}
 	for (const char *d = DST; *d; ++d) { jobs.push_back(fmt("txt:mpt_convert_number>%c:0", *d)); jobs.push_back(fmt("txt:mpt_convert_string>%c:0", *d)); }
+	// development aid (never set by ./check): restrict to jobs containing a substring
+	if (const char *only = getenv("C07_ONLY")) { std::vector<std::string> k; for (auto &j : jobs) if (j.find(only) != std::string::npos) k.push_back(j); jobs.swap(k); }
 }
 static std::vector<std::string> split(const std::string &s, char c)
 {
@@ -772,19 +792,17 @@ static void body(Run &r, JobCtx &jc, Ctx &x)
 		if (!k && !blk) r.sample(fmt("%s: all 4-byte patterns %08llx..%08llx of source '%c' x targets %s x {perform, query}", ENTRY[J.entry], (unsigned long long) (jc.slice * per), (unsigned long long) (jc.slice * per + per - 1), J.s, jc.swt.c_str()));
 		Vec v = x.taken; v.push_back(0);
 		asan_error();
-		uint64_t slow = 0;
-		for (uint64_t i = 0; i < SWBLOCK; ++i) {
-			uint32_t b = (uint32_t) (lo + i);
-			if (fast_ok(J, tix, b)) continue;
-			++slow; v[2] = i + 1; memcpy(val.b, &b, 4);
-			uint64_t st = r.states, tr = r.transitions;
-			check_value(r, J, val, tix, v);
-			r.states = st; r.transitions = tr;
+		uint64_t st = r.states, tr = r.transitions;
+		auto full = [&](uint64_t i) { uint32_t b = (uint32_t) (lo + i); v[2] = i + 1; memcpy(val.b, &b, 4); check_value(r, J, val, tix, v); };
+		for (uint64_t start = 0; start < SWBLOCK;) {
+			bool faulted;
+			uint64_t stop = sweep_run(J, tix, lo, start, SWBLOCK, faulted);
+			if (faulted && stop > start) { bool f2; sweep_run(J, tix, lo, start, stop, f2); }   // counters of the clean part were lost with the jump
+			if (stop < SWBLOCK) full(stop);
+			start = stop + 1;
 		}
-		if (asan_error()) {   // some access in this block was out of bounds: locate it with the full oracle
-			for (uint64_t i = 0; i < SWBLOCK; ++i) { uint32_t b = (uint32_t) (lo + i); v[2] = i + 1; memcpy(val.b, &b, 4); uint64_t st = r.states, tr = r.transitions; check_value(r, J, val, tix, v); r.states = st; r.transitions = tr; }
-		}
-		J.c.cases += SWBLOCK; J.c.query_agree += SWBLOCK - slow; r.states += SWBLOCK; r.transitions += 2 * (uint64_t) SWBLOCK;
+		if (asan_error()) for (uint64_t i = 0; i < SWBLOCK; ++i) full(i);   // an access in this block was out of bounds: locate it with the full oracle
+		r.states = st + SWBLOCK; r.transitions = tr + 2 * (uint64_t) SWBLOCK;
 	} else {
 		TJob &J = jc.tj;
 		int fam = (int) x.choose(2);
